@@ -1,5 +1,6 @@
 import Rdm.Ops.Ranking
 import Rdm.Ops.Utility
+import Rdm.Ops.Links
 import Rdm.Ops.Electre
 import Rdm.Ops.Heuristics
 import Rdm.Ops.BiasesA
@@ -8,6 +9,6 @@ import Rdm.Ops.Pipeline
 namespace Rdm.Ops
 
 def allOps : List (String × (List SExp → R SExp)) :=
-  rankingOps ++ utilityOps ++ electreOps ++ heuristicsOps ++ biasesAOps ++ biasesBOps ++ pipelineOps
+  rankingOps ++ utilityOps ++ linksOps ++ electreOps ++ heuristicsOps ++ biasesAOps ++ biasesBOps ++ pipelineOps
 
 end Rdm.Ops
